@@ -5,13 +5,14 @@ import random, re
 CODES = "ATCGRYWSMKBVDHN"
 
 # ------------------------------------------------------------------ structures
-def random_structure(rng, lens):
+def random_structure(rng, lens, p_open=None):
     """random balanced multi-strand dot-paren for strands of the given lengths (joined by +)"""
     n = sum(lens)
     s = ["."] * n
     stack = []
     i = 0
-    p_open = rng.choice([0.0, 0.2, 0.4])
+    if p_open is None:
+        p_open = rng.choice([0.0, 0.2, 0.4])
     opened = []
     for i in range(n):
         r = rng.random()
@@ -144,12 +145,13 @@ def gen_parts(rng, allow_wild, maxn=5):
 
 class CompGen:
     """Builds a mostly-valid component AST bottom-up, tracking lengths."""
-    def __init__(self, rng, name="comp", allow_zero=True, nstmts=None):
+    def __init__(self, rng, name="comp", allow_zero=True, nstmts=None, density=None):
         self.rng = rng; self.name = name
         self.bases = {}; self.sups = {}; self.strands = {}; self.structs = {}
         self.body = []; self.used = set(); self.allow_zero = allow_zero
         self.sup_items = {}   # name -> top-level item lengths (for domain-level structures)
         self.nstmts = nstmts
+        self.density = density
 
     def fresh(self, kind):
         rng = self.rng
@@ -274,7 +276,7 @@ class CompGen:
             full = "+".join("".join(syms.get(i, ".") * f[2] for i, f in enumerate(flat) if f[0] == si) for si in range(len(doms)))
             self.structs[n] = full
             return n
-        dp = random_structure(rng, lens)
+        dp = random_structure(rng, lens, p_open=self.density)
         if mode == "hu":
             note = ["hu", tree_to_hu(rng, dp_to_tree(dp))]
         else:
@@ -588,3 +590,261 @@ def den_src(prog, prefix="", anon_start=0):
             "strands": {prefix + k: (v[0], v[1]) for k, v in strands.items()},
             "structs": [(o, prefix + n, tuple(prefix + x for x in ns), s) for (o, n, ns, s) in structs],
             "kins": kins, "equals": [], "anon_end": ctr[0]}
+
+# ------------------------------------------------------------------ PIL documents (designer side)
+GROUPS = {"A": "A", "T": "T", "C": "C", "G": "G", "R": "AG", "Y": "CT", "W": "AT", "S": "CG", "M": "AC", "K": "GT",
+          "B": "CGT", "V": "ACG", "D": "AGT", "H": "ACT", "N": "ACGT"}
+REV_GROUPS = {v: k for k, v in GROUPS.items()}
+BCOMPL = {"A": "T", "T": "A", "C": "G", "G": "C"}
+
+class ParityUF:
+    """union-find with parity and per-class base sets; try_link refuses links that would make the design unsatisfiable"""
+    def __init__(self):
+        self.parent = {}; self.par = {}; self.bases = {}
+    def add(self, x, code):
+        self.parent[x] = x; self.par[x] = 0; self.bases[x] = set(GROUPS[code])
+    def find(self, x):
+        if self.parent[x] == x: return x, 0
+        r, q = self.find(self.parent[x])
+        self.parent[x] = r; self.par[x] ^= q
+        return r, self.par[x]
+    def try_link(self, a, b, q):
+        ra, qa = self.find(a); rb, qb = self.find(b)
+        if ra == rb:
+            return (qa ^ qb) == q
+        rel = qa ^ qb ^ q      # parity of ra relative to rb
+        ga = self.bases[ra] if not rel else set(BCOMPL[x] for x in self.bases[ra])
+        g = ga & self.bases[rb]
+        if not g: return False
+        self.parent[ra] = rb; self.par[ra] = rel; self.bases[rb] = g
+        return True
+
+def gen_pil_doc(rng, struct_ok=False, conflicts=True):
+    """hand-written style PIL document as canonical lines (same encoding as read_pil)"""
+    lines = []
+    seqs = {}   # name -> length
+    def template(L):
+        r = rng.random()
+        if r < 0.55: return "N" * L
+        if r < 0.75: return "".join(rng.choice("ACGT") if rng.random() < 0.3 else "N" for _ in range(L))
+        return "".join(rng.choice(CODES) for _ in range(L))
+    nb = rng.choice([1, 2, 3, 4, 6])
+    lens_pool = [rng.choice([1, 2, 3, 4, 6]) for _ in range(2)]
+    for i in range(nb):
+        L = rng.choice(lens_pool + [rng.choice([1, 2, 3, 5, 8])])
+        n = "d%d" % i
+        lines.append(["sequence", n, template(L), L]); seqs[n] = L
+    for i in range(rng.choice([0, 0, 1, 2])):
+        items = [[rng.choice(list(seqs)), rng.random() < 0.4] for _ in range(rng.choice([1, 2, 3]))]
+        n = "u%d" % i
+        L = sum(seqs[x[0]] for x in items)
+        lines.append(["sup-sequence", n, items, L]); seqs[n] = L
+    strands = {}
+    for i in range(rng.choice([1, 2, 3, 4])):
+        items = [[rng.choice(list(seqs)), rng.random() < 0.4] for _ in range(rng.choice([1, 2, 3, 4]))]
+        n = "s%d" % i
+        L = sum(seqs[x[0]] for x in items)
+        lines.append(["strand", rng.random() < 0.1, n, items, L]); strands[n] = L
+    used = set()
+    sparse = rng.choice([0.0, 0.03, 0.03, 0.08, 0.2, 0.4])
+    sat_biased = rng.random() < 0.65
+    uf = ParityUF(); env = {}; sflat = {}
+    for l in lines:
+        if l[0] == "sequence":
+            env[l[1]] = [(l[1], i, False) for i in range(l[3])]
+            for i, c in enumerate(l[2]): uf.add((l[1], i), c)
+        elif l[0] == "sup-sequence":
+            env[l[1]] = [x for n, st in l[2] for x in (flip(env[n]) if st else env[n])]
+        elif l[0] == "strand":
+            sflat[l[2]] = [x for n, st in l[3] for x in (flip(env[n]) if st else env[n])]
+    ns = rng.choice([1, 1, 2, 3])
+    for i in range(ns):
+        names = [rng.choice(list(strands)) for _ in range(rng.choice([1, 1, 2, 3]))]
+        used.update(names)
+        if sat_biased:
+            flat = [x for nme in names for x in sflat[nme]]
+            sy = ["."] * len(flat); opened = []
+            for j in range(len(flat)):
+                r = rng.random()
+                if opened and r < 0.45:
+                    o = opened[-1]
+                    a, b = flat[o], flat[j]
+                    if uf.try_link(a[:2], b[:2], a[2] ^ b[2] ^ 1):
+                        opened.pop(); sy[o] = "("; sy[j] = ")"
+                elif r < 0.75:
+                    opened.append(j)
+            k = 0; segs = []
+            for nme in names:
+                segs.append("".join(sy[k:k + strands[nme]])); k += strands[nme]
+            dp = "+".join(segs)
+        else:
+            dp = random_structure(rng, [strands[x] for x in names], p_open=sparse)
+        lines.append(["structure", rng.choice([1, 0, 5]), "X%d" % i, names, dp])
+    if struct_ok:
+        for n in strands:
+            if n not in used:
+                lines.append(["structure", 1, "Y" + n, [n], "." * strands[n]])
+    for i in range(rng.choice([0, 0, 1, 2])):
+        a = rng.choice(list(seqs))
+        same = [x for x in seqs if seqs[x] == seqs[a]]
+        items = [[a, rng.random() < 0.3]] + [[rng.choice(same), rng.random() < 0.4] for _ in range(rng.choice([1, 1, 2]))]
+        if sat_biased:
+            v0 = flip(env[items[0][0]]) if items[0][1] else env[items[0][0]]
+            keep = [items[0]]
+            for it in items[1:]:
+                v = flip(env[it[0]]) if it[1] else env[it[0]]
+                import copy as _c
+                snap = _c.deepcopy((uf.parent, uf.par, uf.bases))
+                if all(uf.try_link(x[:2], y[:2], x[2] ^ y[2]) for x, y in zip(v0, v)):
+                    keep.append(it)
+                else:
+                    uf.parent, uf.par, uf.bases = snap
+            items = keep
+            if len(items) < 2: continue
+        lines.append(["equal", items])
+    if rng.random() < 0.2 and lines:
+        st = [l[2] for l in lines if l[0] == "structure"]
+        lines.append(["kinetic", 0.0, float("inf"), [rng.choice(st)], [rng.choice(st)]])
+    # statements may be interleaved as long as definitions precede uses: keep this order (valid)
+    return lines
+
+def pil_text(rng, lines, handwritten=True):
+    out = []
+    def its(l): return (" " * rng.choice([1, 1, 2])).join(n + ("*" if s else "") for n, s in l)
+    for l in lines:
+        k = l[0]
+        sp = (lambda: rng.choice([" ", " ", "  ", "\t"])) if handwritten else (lambda: " ")
+        if k == "sequence":
+            out.append("sequence%s%s%s=%s%s%s:%s%d" % (sp(), l[1], sp(), sp(), l[2], sp(), sp(), l[3]))
+        elif k == "sup-sequence":
+            kw = rng.choice(["sup-sequence", "super-sequence"]) if handwritten else "sup-sequence"
+            out.append("%s%s%s%s=%s%s%s:%s%d" % (kw, sp(), l[1], sp(), sp(), its(l[2]), sp(), sp(), l[3]))
+        elif k == "strand":
+            out.append("strand%s%s%s%s=%s%s%s:%s%d" % (sp(), "[dummy]" + sp() if l[1] else "", l[2], sp(), sp(), its(l[3]), sp(), sp(), l[4]))
+        elif k == "structure":
+            br = "" if (handwritten and rng.random() < 0.4) else "[%dnt]%s" % (l[1], sp())
+            dp = l[4]
+            if handwritten and rng.random() < 0.3:
+                dp = "".join(ch + (" " if rng.random() < 0.2 else "") for ch in dp).strip() or dp
+            out.append("structure%s%s%s%s=%s%s%s:%s%s" % (sp(), br, l[2], sp(), sp(), (sp() + "+" + sp()).join(l[3]), sp(), sp(), dp))
+        elif k == "kinetic":
+            out.append("kinetic [%f /M/s < k < %f /M/s] %s -> %s" % (l[1], l[2], " + ".join(l[3]), " + ".join(l[4])))
+        elif k == "equal":
+            out.append("equal%s%s" % (sp(), its(l[1])))
+        if handwritten and rng.random() < 0.1:
+            out.append("# comment line")
+        if handwritten and rng.random() < 0.05:
+            out[-1] += "   # trailing"
+    return "\n".join(out) + "\n"
+
+def spec_arrays(lines, struct_orient):
+    """Specification of the designer arrays, computed from the denotation of the document:
+    parity union-find over base nucleotides (no auxiliary nodes).  Returns
+    ("ok", eq, wc, st) | ("unsat", why) | ("illformed", why)"""
+    doms = {}; env = {}; strands = {}; order = []; structs = []; equals = []
+    def res(items):
+        out = []
+        for n, star in items:
+            if n not in env: raise ValueError("undefined " + n)
+            out += flip(env[n]) if star else env[n]
+        return out
+    try:
+        for l in lines:
+            k = l[0]
+            if k == "sequence":
+                if l[1] in env: raise ValueError("dup")
+                if any(c not in GROUPS for c in l[2]): raise ValueError("alphabet")
+                doms[l[1]] = l[2]; env[l[1]] = [(l[1], i, False) for i in range(len(l[2]))]
+            elif k == "sup-sequence":
+                if l[1] in env: raise ValueError("dup")
+                env[l[1]] = res(l[2])
+            elif k == "strand":
+                if l[2] in strands: raise ValueError("dup strand")
+                strands[l[2]] = res(l[3]); order.append(l[2])
+            elif k == "structure":
+                if any(s not in strands for s in l[3]): raise ValueError("undefined strand")
+                segs = l[4].split("+")
+                if len(segs) != len(l[3]) or any(len(sg) != len(strands[s]) for sg, s in zip(segs, l[3])): raise ValueError("size")
+                if any(x[0] == l[2] for x in structs): raise ValueError("dup struct")
+                # bonds (a ')' without '(' is an error; dangling '(' are ignored by the reader)
+                st = []; bonds = []; pos = 0
+                for ch in l[4]:
+                    if ch == "+": continue
+                    if ch == "(": st.append(pos)
+                    elif ch == ")":
+                        if not st: raise ValueError("unmatched")
+                        bonds.append((st.pop(), pos))
+                    pos += 1
+                structs.append((l[2], l[3], bonds))
+            elif k == "equal":
+                vs = [flip(env[n]) if s else env[n] for n, s in l[1]] if all(n in env for n, s in l[1]) else None
+                if vs is None or not vs or any(len(v) != len(vs[0]) for v in vs): raise ValueError("equal")
+                equals.append(vs)
+    except ValueError as e:
+        return ("illformed", str(e))
+    # layout
+    pos_nt = {}
+    if struct_orient:
+        p = 0
+        for (sn, names, bonds) in structs:
+            for s in names:
+                for i, nt in enumerate(strands[s]): pos_nt[p + i] = nt
+                p += len(strands[s]) + 1
+            p += 1
+        if any(s not in [x for (_, ns, _) in structs for x in ns] for s in order):
+            return ("illformed", "strand in no structure")
+    else:
+        p = 0
+        for s in order:
+            for i, nt in enumerate(strands[s]): pos_nt[p + i] = nt
+            p += len(strands[s]) + 2
+    # parity union-find
+    parent = {}; par = {}
+    def find(x):
+        if x not in parent: parent[x] = x; par[x] = 0
+        if parent[x] == x: return x, 0
+        r, q = find(parent[x])
+        parent[x] = r; par[x] ^= q
+        return r, par[x]
+    conflict = []
+    def link(a, b, q):
+        ra, qa = find(a); rb, qb = find(b)
+        if ra == rb:
+            if qa ^ qb != q: conflict.append((a, b))
+        else:
+            parent[ra] = rb; par[ra] = qa ^ qb ^ q
+    for d, t in doms.items():
+        for i in range(len(t)): find((d, i))
+    for vs in equals:
+        for v in vs[1:]:
+            for a, b in zip(vs[0], v): link(a[:2], b[:2], a[2] ^ b[2])
+    for (sn, names, bonds) in structs:
+        flat = [nt for s in names for nt in strands[s]]
+        for x, y in bonds:
+            a, b = flat[x], flat[y]; link(a[:2], b[:2], a[2] ^ b[2] ^ 1)
+    if conflict:
+        return ("unsat", "odd cycle")
+    cls = {}
+    for d, t in doms.items():
+        for i, c in enumerate(t):
+            r, q = find((d, i))
+            g = set(GROUPS[c]) if not q else set(BCOMPL[b] for b in GROUPS[c])
+            cls[r] = cls.get(r, set("ACGT")) & g
+    if any(not g for g in cls.values()):
+        return ("unsat", "empty template intersection")
+    n = max(pos_nt) + 1 if pos_nt else 0
+    key = {}
+    for p_, (d, i, rv) in pos_nt.items():
+        r, q = find((d, i)); key[p_] = (r, q ^ rv)
+    first = {}
+    for p_ in sorted(pos_nt):
+        first.setdefault(key[p_], p_)
+    eq = [first[key[i]] if i in pos_nt else None for i in range(n)]
+    wc = [first.get((key[i][0], key[i][1] ^ 1)) if i in pos_nt else None for i in range(n)]
+    st = []
+    for i in range(n):
+        if i not in pos_nt: st.append(None); continue
+        r, q = key[i]
+        g = cls[r] if not q else set(BCOMPL[b] for b in cls[r])
+        st.append(REV_GROUPS["".join(sorted(g))])
+    return ("ok", eq, wc, st)
